@@ -20,6 +20,12 @@ type Obligation struct {
 	Where  string // source position
 	Expect string // "unsat" normally; "sat" for cover checks
 	Func   string
+	Witness []WitnessTerm // terms whose model values parameterise the replay adapter
+}
+
+type WitnessTerm struct {
+	Name string
+	T    Term
 }
 
 type VC struct {
@@ -53,6 +59,10 @@ type VC struct {
 	goroutines int
 	usedCallCl map[string]bool
 	qdepth     int
+	adapter    *ReplayAdapter
+	curFrame   *Frame
+	curInstr   ssa.Instruction
+	curState   *State
 }
 
 func newVC(eng *Engine, fn *ssa.Function, con *Contract) *VC {
@@ -109,10 +119,13 @@ func (vc *VC) addObl(o *Obligation) {
 	if vc.quiet > 0 {
 		return
 	}
-	o.NAss = len(vc.assumes)
 	if o.Expect == "" {
 		o.Expect = "unsat"
 	}
+	if vc.adapter != nil && o.Expect == "unsat" && vc.curFrame != nil && vc.curFrame.depth == 0 {
+		o.Witness = vc.witnessTerms()
+	}
+	o.NAss = len(vc.assumes)
 	o.Func = vc.fn.String()
 	// unique names
 	base := o.Name
